@@ -1,12 +1,12 @@
 SPECIFICATION Spec
 CONSTANTS
-  N = 1
-  Kinds <- K1e
+  N = 3
+  Kinds <- K3
   Units = 2
   Cap = 1
   DropParentCloseW = FALSE
-  FailAt = 0
-  LateFail = "clean"
+  FailAt = 3
+  LateFail = "leak"
   HereAt = 0
   HereUnits = 0
   SigpipeMode = "ignored"
